@@ -164,6 +164,50 @@ func c16R1(ic *IC, r *Report) {
 	usesPkgDir := len(callsIn(ic.Info, relIf.Body, false, "interp.Interpreter.pkgDir")) > 0
 	r.Check(okRel && !usesPkgDir, "R16.1", "importSrc/relative-branch", ic.pos(relIf.Pos()), "relative imports resolve against filepath.Dir(interp.name)",
 		"the relative-import branch does not build the directory from the importing file's directory (filepath.Dir(interp.name)), or goes through the GOPATH/vendor search")
+	// the root that locates this package is the root handed on to the packages it imports: the
+	// path element joined into the directory on the relative branch is the very variable (the
+	// rPath parameter, normalised in place) that the rest of importSrc passes on to
+	// effectivePkg / gta. A normalised local copy leaves nested relative imports with the raw root.
+	{
+		var rootParam types.Object
+		if ps := is.Decl.Type.Params.List; len(ps) > 0 && len(ps[0].Names) > 0 {
+			rootParam = ic.Info.ObjectOf(ps[0].Names[0])
+		}
+		var joined []types.Object
+		ast.Inspect(relIf.Body, func(n ast.Node) bool {
+			if call, ok := n.(*ast.CallExpr); ok && isCallTo(ic.Info, call, "path/filepath.Join") {
+				for _, a := range call.Args {
+					if id, ok := unparen(a).(*ast.Ident); ok {
+						if v, ok := ic.Info.ObjectOf(id).(*types.Var); ok && types.Identical(v.Type(), types.Typ[types.String]) {
+							joined = append(joined, v)
+						}
+					}
+				}
+			}
+			return true
+		})
+		usedLater := false
+		ast.Inspect(is.Decl.Body, func(n ast.Node) bool {
+			if call, ok := n.(*ast.CallExpr); ok && call.Pos() > relIf.End() && isCallTo(ic.Info, call, "interp.effectivePkg", "interp.Interpreter.gta", "interp.Interpreter.gtaRetry") {
+				for _, a := range call.Args {
+					if id, ok := unparen(a).(*ast.Ident); ok && ic.Info.ObjectOf(id) == rootParam {
+						usedLater = true
+					}
+				}
+			}
+			return true
+		})
+		if rootParam != nil && usedLater {
+			same := false
+			for _, j := range joined {
+				if j == rootParam {
+					same = true
+				}
+			}
+			r.Check(same, "R16.1", "importSrc/relative-branch/root-handed-on", ic.pos(relIf.Pos()), "the root joined into the directory is the root handed on to nested imports",
+				"on the relative-import branch the directory is built from a local copy of the root while the rest of importSrc hands the unnormalised "+rootParam.Name()+" on to the imports of that package: a relative import made by a relatively imported package resolves against the wrong directory")
+		}
+	}
 }
 
 func c16R2(ic *IC, r *Report) {
